@@ -68,6 +68,8 @@ type Enc struct {
 	resultTerms   []Value
 	finalGuard    Term
 	inlineN       int
+	cloCellMap    map[*Frame]map[*ssa.Alloc]Value
+	loopRTs       map[*Frame]map[int]*loopRT
 }
 
 func newEnc(p *Prog, top *ssa.Function, c *Contract) *Enc {
